@@ -312,6 +312,17 @@ class Guard:
                     # not restrict the single-parameter region (evaluated as "relation satisfied")
                     self.relations.add((lp, op, rp))
                     return Region.empty(self.integer)
+                # `dist_fn.dist_to_rdist(tolerance) <= 0`: the test looks at a value *computed from* the parameter by some other
+                # object's method - a converted copy, like `to_f32()`: what is accepted or rejected is the copy (its square
+                # underflows, say), not the parameter
+                for side, cst, op_ in ((n["l"], rc, op), (n["r"], lc, flip[op])):
+                    s0 = peel_refs(side)
+                    if cst is not None and s0.get("k") in ("MethodCall", "Call") and len(s0["args"]) == 1 and self.path_of(s0["args"][0]) is not None and (s0.get("k") == "Call" or self.path_of(s0["recv"]) != self.path_of(s0["args"][0])):
+                        pth = self.path_of(s0["args"][0])
+                        nm_ = s0["name"] if s0.get("k") == "MethodCall" else (self.c.dfn(strip(s0["f"]).get("def")) or {}).get("name", "?")
+                        if nm_ not in ("cast", "from", "from_f64", "from_f32", "Some", "clone", "into"):
+                            self.lossy_tests.add((pth, nm_))
+                            return self.value_region(pth, op_, cst, peel_refs(s0["args"][0]))
                 # `penalty * l1_ratio < 0`: arithmetic over parameters, linear in the parameter under analysis once the others
                 # are at their witness values (analyse_check_ref repeats the analysis with the boundary values of those others)
                 xl, xr = self.lin_of(n["l"]), self.lin_of(n["r"])
@@ -350,6 +361,38 @@ class Guard:
             if p is not None:
                 self.opaque.add("state:" + p)
                 return Region.empty(self.integer)
+        if kk == "Call" and len(n["args"]) == 1 and self.path_of(n["args"][0]) is not None and (self.c.ty(n.get("t")) or "").strip() == "bool" and self.depth < 3:
+            # a predicate of the same crate applied to one parameter (`at_least_one(self.0.n_runs)`): read through it
+            f0 = strip(n["f"])
+            di = f0.get("inst", f0.get("def")) if f0.get("k") == "Path" else None
+            g = next((h for h in self.c.fns if h["def"] == di and h is not self.fn), None) if di is not None else None
+            if g is None and f0.get("k") == "Path" and "def" in f0:
+                g = next((h for h in self.c.fns if h["def"] == f0["def"] and h is not self.fn), None)
+            if g is not None and len(g["params"]) == 1 and g["params"][0].get("k") == "Bind":
+                sub = Guard(g, self.f, self.w, self.integer)
+                sub.depth = self.depth + 1
+                sub.env[g["params"][0]["local"]] = self.path_of(n["args"][0])
+                body = strip(g["body"])
+                while body.get("k") == "Block" and not body.get("stmts") and body.get("e") is not None:
+                    body = strip(body["e"])
+                reg = sub.cond(body)
+                self.lossy_tests |= sub.lossy_tests
+                self.opaque |= sub.opaque
+                for p_, t_ in sub.paths_seen.items():
+                    self.paths_seen.setdefault(p_, t_)
+                return reg
+        if kk == "MethodCall" and n["name"] in ("map_or", "is_some_and", "map_or_else") and n["args"] and strip(n["args"][-1]).get("k") == "Closure":
+            # `c.to_u32().map_or(false, |c| c >= 1)`: the test runs on a narrowed copy of the parameter
+            rv = peel_refs(n["recv"])
+            if rv.get("k") == "MethodCall" and not rv["args"] and rv["name"] in LOSSY_CONVERSIONS and self.path_of(rv["recv"]) is not None:
+                pth = self.path_of(rv["recv"])
+                st = (self.c.ty(peel_refs(rv["recv"]).get("t")) or "").strip().lstrip("&")
+                if not (rv["name"] == "to_f32" and st == "f32") and not (st in INT_TYPES and rv["name"] not in ("to_u8", "to_u16", "to_u32", "to_i8", "to_i16", "to_i32", "to_f32")):
+                    self.lossy_tests.add((pth, rv["name"]))
+                clo = strip(n["args"][-1])
+                for b in (b for p_ in clo["params"] for b in pat_bindings(p_)):
+                    self.env[b["local"]] = pth
+                return self.cond(clo["body"])
         if kk == "MethodCall":
             name = n["name"]
             p = self.path_of(n["recv"])
@@ -1324,12 +1367,24 @@ def rule_setter(ctx, rid="R-C04-setter", only=None, floor=60):
                                 if b["local"] not in params:
                                     params.add(b["local"])
                                     grew = True
+        # a local computed from an argument (`let max_distance = match self.0.method { Ward => max_distance * max_distance, _ => max_distance };`)
+        # is the argument as far as "stored unchanged" goes: its initialiser is read together with the stored expression
+        derived = {}
+        for y in walk(fn["body"]):
+            if y.get("k") == "LetStmt" and y.get("init") is not None and y["pat"].get("k") == "Bind" and any(z.get("k") == "Path" and z.get("local") in params for z in walk(y["init"])):
+                derived[y["pat"]["local"]] = y["init"]
         for fld, val, node in _assigned_fields(fn):
             n += 1
             key = "%s : %s" % (fn_key(fn), fld)
             res.instance(key)
             bad = None
-            for y in walk(val):
+            exprs, seen_d = [val], set()
+            for e_ in exprs:
+                for y in walk(e_):
+                    if y.get("k") == "Path" and y.get("local") in derived and y["local"] not in seen_d:
+                        seen_d.add(y["local"])
+                        exprs.append(derived[y["local"]])
+            for y in (z for e_ in exprs for z in walk(e_)):
                 if y.get("k") == "MethodCall" and y["name"] in VALUE_CHANGING and any(z.get("k") == "Path" and z.get("local") in params for z in walk(y["recv"])):
                     bad = "`.%s(..)`" % y["name"]
                     break
